@@ -49,6 +49,12 @@ type Tape struct {
 	Aborted     bool
 	OddSizes    int // Read calls whose length was not 4
 
+	// CloseAfterWord: the source only serves words that the sampler accepts
+	// at once (calibrated representatives), so an announced draw is over
+	// after one word and a further read without a new announcement is a raw
+	// read made outside the bounded draw.
+	CloseAfterWord bool
+
 	// log of (bound, word) per word drawn, if LogOn
 	LogOn bool
 	Log   []Drawn
@@ -172,6 +178,10 @@ func (t *Tape) fill() error {
 	}
 	binary.BigEndian.PutUint32(t.buf[:], w)
 	t.off = 0
+	if t.CloseAfterWord && t.announced {
+		t.announced = false
+		t.wordsIn = 0
+	}
 	return nil
 }
 
